@@ -38,11 +38,11 @@ theorem resource_load_replaces_resource (hM : Lawful M) (ops : List (Op R)) (res
   rw [enforced_eq_valid_latest hM, latest_snoc]
   simp [latestStep, h, upd_same, buildList]
 
-/-- **the getters return exactly the enforced rules** (flow, isolation, hotspot: the getters read the controllers) -/
-theorem getters_eq_enforced (hM : Lawful M) (hp : M.pubValid = false) (ops : List (Op R)) :
-    (∀ k, getRes (run M ops) k = (run M ops).enf k) ∧
-    getAll (run M ops) = (run M ops).keys.eraseDups.flatMap (run M ops).enf := by
-  have h : ∀ k, (run M ops).pub k = (run M ops).enf k := by
+/-- **the getters return exactly the rule objects bound to the controllers in force** (flow, isolation, hotspot) -/
+theorem getters_eq_bound (hM : Lawful M) (hp : M.pubValid = false) (ops : List (Op R)) :
+    (∀ k, getRes (run M ops) k = (run M ops).bound k) ∧
+    getAll (run M ops) = (run M ops).keys.eraseDups.flatMap (run M ops).bound := by
+  have h : ∀ k, (run M ops).pub k = (run M ops).bound k := by
     intro k
     rcases (inv_run hM ops).pub k with h | ⟨h, _⟩
     · exact h
@@ -52,16 +52,28 @@ theorem getters_eq_enforced (hM : Lawful M) (hp : M.pubValid = false) (ops : Lis
   congr 1
   exact funext h
 
+/-- … and those objects are the accepted rules of the latest load **up to the fields the module's own equality
+    ignores** (`M.canon`: the ID; for hotspot also `BurstCount` under Throttling / `MaxQueueingTimeMs` under Reject):
+    a controller kept by `calculateReuseIndexFor` stays bound to the old object -/
+theorem getters_eq_enforced (hM : Lawful M) (hp : M.pubValid = false) (ops : List (Op R)) (k : String) :
+    (getRes (run M ops) k).map M.canon = ((run M ops).enf k).map M.canon := by
+  rw [(getters_eq_bound hM hp ops).1 k]; exact (inv_run hM ops).bound k
+
+/-- where nothing is reused (isolation: the rule map holds the rules themselves) the getters are exact -/
+theorem getters_eq_enforced_of_no_reuse (hM : Lawful M) (hp : M.pubValid = false) (hne : ∀ a b, M.equals a b = false)
+    (ops : List (Op R)) (k : String) : getRes (run M ops) k = (run M ops).enf k := by
+  rw [(getters_eq_bound hM hp ops).1 k]; exact (inv_run hM ops).boundEq hne k
+
 def getters_eq_enforced_statement (M : RuleMod R) : Prop :=
   ∀ (ops : List (Op R)) (k : String), getRes (run M ops) k = (run M ops).enf k
 
-/-- for every module (including the circuit breaker, whose getters read `breakerRules`): the getter equals the
-    enforced rules of a resource whenever every valid rule handed over for it got a controller -/
-theorem getters_eq_enforced_partial (hM : Lawful M) (ops : List (Op R)) (k : String)
+/-- modules whose getters read a separate map of valid rules (the circuit breaker's `breakerRules`): the getter equals
+    the enforced rules of a resource whenever every valid rule handed over for it got a controller -/
+theorem getters_eq_enforced_partial (hM : Lawful M) (hne : ∀ a b, M.equals a b = false) (ops : List (Op R)) (k : String)
     (h : ∀ r ∈ validList M (latest M ops k), built M k r = true) :
     getRes (run M ops) k = (run M ops).enf k := by
   rcases (inv_run hM ops).pub k with hp | ⟨hp, hv⟩
-  · exact hp
+  · exact hp.trans ((inv_run hM ops).boundEq hne k)
   · show (run M ops).pub k = _
     rw [hv, (inv_run hM ops).enf k]
     unfold validList buildList
@@ -79,7 +91,7 @@ theorem getters_eq_enforced_partial (hM : Lawful M) (ops : List (Op R)) (k : Str
 /-- pinned tree: a circuit-breaker rule with an unregistered strategy passes `IsValidRule`, is returned by both
     getters, and no breaker exists for it; loaded through the per-resource path it is *not* returned -/
 theorem cb_getter_reports_unbuilt_witness :
-    let r : CbRule := { res := "c", strategy := 3, retryMs := 1000, minReq := 1, statMs := 1000, buckets := 0, maxRt := 0, th2 := 0, probe := 0 }
+    let r : CbRule := { id := "", res := "c", strategy := 3, retryMs := 1000, minReq := 1, statMs := 1000, buckets := 0, maxRt := 0, th2 := 0, probe := 0 }
     let s := (loadAll cbMod MState.init [some r]).1
     let s' := (loadRes cbMod MState.init "c" [some r]).1
     getRes s "c" = [r] ∧ s.enf "c" = [] ∧ getRes s' "c" = [] := by decide
@@ -98,14 +110,14 @@ theorem invalid_never_enforced (hM : Lawful M) (ops : List (Op R)) (k : String) 
     cache untouched (no invariant needed: true in every state) -/
 theorem locality (s : MState R) (res : String) (rules : List (Option R)) (k : String) (hk : k ≠ res) :
     (loadRes M s res rules).1.enf k = s.enf k ∧ (loadRes M s res rules).1.pub k = s.pub k ∧
-    (loadRes M s res rules).1.cache k = s.cache k := by
+    (loadRes M s res rules).1.cache k = s.cache k ∧ (loadRes M s res rules).1.bound k = s.bound k := by
   by_cases h0 : res = ""
-  · subst h0; rw [loadRes_noRes]; exact ⟨rfl, rfl, rfl⟩
+  · subst h0; rw [loadRes_noRes]; exact ⟨rfl, rfl, rfl, rfl⟩
   by_cases h1 : rules = []
-  · subst h1; rw [loadRes_clear h0]; exact ⟨upd_other _ _ hk, upd_other _ _ hk, upd_other _ _ hk⟩
+  · subst h1; rw [loadRes_clear h0]; exact ⟨upd_other _ _ hk, upd_other _ _ hk, upd_other _ _ hk, upd_other _ _ hk⟩
   by_cases hc : s.cache res = rules
-  · rw [loadRes_unchanged h0 h1 hc]; exact ⟨rfl, rfl, rfl⟩
-  · rw [loadRes_changed h0 h1 hc]; exact ⟨upd_other _ _ hk, upd_other _ _ hk, upd_other _ _ hk⟩
+  · rw [loadRes_unchanged h0 h1 hc]; exact ⟨rfl, rfl, rfl, rfl⟩
+  · rw [loadRes_changed h0 h1 hc]; exact ⟨upd_other _ _ hk, upd_other _ _ hk, upd_other _ _ hk, upd_other _ _ hk⟩
 
 theorem locality_step (s : MState R) (res : String) (k : String) (hk : k ≠ res) :
     (∀ rules, (step M s (.loadRes res rules)).1.enf k = s.enf k) ∧ (step M s (.clearRes res)).1.enf k = s.enf k :=
@@ -117,11 +129,12 @@ theorem both_paths_agree (hM : Lawful M) (ops : List (Op R)) (rules : List (Opti
     (run M (ops ++ [.loadRes res (proj M res rules)])).enf res = (run M (ops ++ [.loadAll rules])).enf res := by
   rw [resource_load_replaces_resource hM ops res h, whole_load_replaces_everything hM]
 
-/-- … and, where the getters read the controllers, the same rules are reported -/
+/-- … and, where the getters read the controllers, the same rules are reported (up to `M.canon`, see above) -/
 theorem both_paths_agree_getters (hM : Lawful M) (hp : M.pubValid = false) (ops : List (Op R)) (rules : List (Option R))
     (res : String) (h : res ≠ "") :
-    getRes (run M (ops ++ [.loadRes res (proj M res rules)])) res = getRes (run M (ops ++ [.loadAll rules])) res := by
-  rw [(getters_eq_enforced hM hp _).1, (getters_eq_enforced hM hp _).1, both_paths_agree hM ops rules res h]
+    (getRes (run M (ops ++ [.loadRes res (proj M res rules)])) res).map M.canon =
+    (getRes (run M (ops ++ [.loadAll rules])) res).map M.canon := by
+  rw [getters_eq_enforced hM hp, getters_eq_enforced hM hp, both_paths_agree hM ops rules res h]
 
 /-- **loading never panics** (every element may be nil; after 9992752 the grouping loops skip nil) -/
 theorem never_panics (s : MState R) (op : Op R) : (step M s op).2 ≠ .panic := by
@@ -187,9 +200,9 @@ end map
 /-- pinned tree: identical reload of a warm-up rule without cold factor / a hotspot rule without specific items
     reports "changed" (the constructor normalised the cached object) -/
 theorem normalised_reload_witness :
-    let w : FlowRule := { res := "f", tcs := 1, cb := 0, th2 := 20, rel := 0, ref := "", maxQ := 0, wuPeriod := 10, wuCf := 0,
+    let w : FlowRule := { id := "", res := "f", tcs := 1, cb := 0, th2 := 20, rel := 0, ref := "", maxQ := 0, wuPeriod := 10, wuCf := 0,
                           statMs := 0, lowMem := 0, highMem := 0, memLow := 0, memHigh := 0 }
-    let h : HotRule := { res := "h", metric := 1, cb := 0, pidx := 0, pkey := "", th := 3, maxQ := 0, burst := 0, dur := 1, cap := 0, items := 0 }
+    let h : HotRule := { id := "", res := "h", metric := 1, cb := 0, pidx := 0, pkey := "", th := 3, maxQ := 0, burst := 0, dur := 1, cap := 0, items := 0 }
     (loadAll (flowMod 0) (loadAll (flowMod 0) MState.init [some w]).1 [some w]).2 = .changed ∧
     (loadAll hotMod (loadAll hotMod MState.init [some h]).1 [some h]).2 = .changed ∧
     (loadRes (flowMod 0) (loadRes (flowMod 0) MState.init "f" [some w]).1 "f" [some w]).2 = .changed := by decide
@@ -201,7 +214,7 @@ theorem empty_resource_reload_witness :
 
 theorem identical_reload_statement_fails : ¬ identical_reload_unchanged_statement (flowMod 0) := by
   intro h
-  have := h.1 [] [some { res := "f", tcs := 1, cb := 0, th2 := 20, rel := 0, ref := "", maxQ := 0, wuPeriod := 10, wuCf := 0,
+  have := h.1 [] [some { id := "", res := "f", tcs := 1, cb := 0, th2 := 20, rel := 0, ref := "", maxQ := 0, wuPeriod := 10, wuCf := 0,
                          statMs := 0, lowMem := 0, highMem := 0, memLow := 0, memHigh := 0 }]
   revert this
   decide
@@ -221,19 +234,45 @@ theorem cb_identical_reload_unchanged (ops : List (Op CbRule)) (rules : List (Op
     (loadAll cbMod (run cbMod (ops ++ [.loadAll rules])) rules).2 = .unchanged :=
   identical_reload_unchanged_of_norm_id cb_lawful (fun _ => rfl) ops rules
 
-/-- flow / isolation / hotspot getters are exact -/
-theorem flow_getters (tm : Int) (ops : List (Op FlowRule)) (k : String) :
-    getRes (run (flowMod tm) ops) k = (run (flowMod tm) ops).enf k := (getters_eq_enforced (flow_lawful tm) rfl ops).1 k
+/-- isolation getters are exact; flow / hotspot getters up to what `isEqualsTo` / `Equals` ignore -/
 theorem iso_getters (ops : List (Op IsoRule)) (k : String) :
-    getRes (run isoMod ops) k = (run isoMod ops).enf k := (getters_eq_enforced iso_lawful rfl ops).1 k
+    getRes (run isoMod ops) k = (run isoMod ops).enf k :=
+  getters_eq_enforced_of_no_reuse iso_lawful rfl (fun _ _ => rfl) ops k
+theorem flow_getters (tm : Int) (ops : List (Op FlowRule)) (k : String) :
+    (getRes (run (flowMod tm) ops) k).map flowCanon = ((run (flowMod tm) ops).enf k).map flowCanon :=
+  getters_eq_enforced (flow_lawful tm) rfl ops k
 theorem hot_getters (ops : List (Op HotRule)) (k : String) :
-    getRes (run hotMod ops) k = (run hotMod ops).enf k := (getters_eq_enforced hot_lawful rfl ops).1 k
+    (getRes (run hotMod ops) k).map hotCanon = ((run hotMod ops).enf k).map hotCanon :=
+  getters_eq_enforced hot_lawful rfl ops k
+
+/-- pinned tree (`stale-equal-rule`): reloading a rule that differs only in what the module's equality ignores keeps
+    the old controller, and the getter keeps returning the OLD object — old ID (flow, hotspot), old
+    `MaxQueueingTimeMs` of a Reject rule (hotspot) -/
+theorem stale_equal_rule_witness :
+    let f : FlowRule := { id := "a", res := "f", tcs := 0, cb := 0, th2 := 2, rel := 0, ref := "", maxQ := 0, wuPeriod := 0, wuCf := 0,
+                          statMs := 0, lowMem := 0, highMem := 0, memLow := 0, memHigh := 0 }
+    let h : HotRule := { id := "", res := "h", metric := 1, cb := 0, pidx := 0, pkey := "", th := 3, maxQ := 0, burst := 0, dur := 1, cap := 0, items := 1 }
+    getRes (run (flowMod 0) [.loadAll [some f], .loadAll [some { f with id := "b" }]]) "f" = [f] ∧
+    (run (flowMod 0) [.loadAll [some f], .loadAll [some { f with id := "b" }]]).enf "f" = [{ f with id := "b" }] ∧
+    getRes (run hotMod [.loadRes "h" [some h], .loadRes "h" [some { h with maxQ := 7 }]]) "h" = [h] := by decide
+
+/-- the history of the witness: the same flow rule loaded twice, only the ID differs -/
+def staleIdOps : List (Op FlowRule) :=
+  let f : FlowRule := { id := "a", res := "f", tcs := 0, cb := 0, th2 := 2, rel := 0, ref := "", maxQ := 0, wuPeriod := 0, wuCf := 0,
+                        statMs := 0, lowMem := 0, highMem := 0, memLow := 0, memHigh := 0 }
+  [.loadAll [some f], .loadAll [some { f with id := "b" }]]
+
+theorem getters_statement_fails : ¬ getters_eq_enforced_statement (flowMod 0) := by
+  intro h
+  have := h staleIdOps "f"
+  revert this
+  decide
 
 /-- the hypotheses of the partial theorems are satisfiable, and the conclusions are not vacuous -/
-example : (run isoMod [.loadAll [some { res := "i", metric := 0, th := 1 }, none, some { res := "i", metric := 0, th := 0 }]]).enf "i"
-    = [{ res := "i", metric := 0, th := 1 }] := by decide
-example : ∀ k, (proj hotMod k [some { res := "h", metric := 1, cb := 0, pidx := 0, pkey := "", th := 3, maxQ := 0, burst := 0, dur := 1, cap := 0, items := 1 }]).map (normIn hotMod k)
-    = proj hotMod k [some { res := "h", metric := 1, cb := 0, pidx := 0, pkey := "", th := 3, maxQ := 0, burst := 0, dur := 1, cap := 0, items := 1 }] := by
+example : (run isoMod [.loadAll [some { id := "", res := "i", metric := 0, th := 1 }, none, some { id := "", res := "i", metric := 0, th := 0 }]]).enf "i"
+    = [{ id := "", res := "i", metric := 0, th := 1 }] := by decide
+example : ∀ k, (proj hotMod k [some { id := "", res := "h", metric := 1, cb := 0, pidx := 0, pkey := "", th := 3, maxQ := 0, burst := 0, dur := 1, cap := 0, items := 1 }]).map (normIn hotMod k)
+    = proj hotMod k [some { id := "", res := "h", metric := 1, cb := 0, pidx := 0, pkey := "", th := 3, maxQ := 0, burst := 0, dur := 1, cap := 0, items := 1 }] := by
   intro k
   by_cases h : k = "h"
   · subst h; decide
@@ -274,7 +313,7 @@ def out_enforced_eq_valid_latest_statement : Prop :=
 
 /-- pinned tree: a refused per-resource load leaves the previous rule in force (and in `GetRules`) -/
 theorem outlier_invalid_keeps_old_witness :
-    let c : CbRule := { res := "o", strategy := 2, retryMs := 1000, minReq := 1, statMs := 1000, buckets := 0, maxRt := 0, th2 := 2, probe := 0 }
+    let c : CbRule := { id := "", res := "o", strategy := 2, retryMs := 1000, minReq := 1, statMs := 1000, buckets := 0, maxRt := 0, th2 := 2, probe := 0 }
     let good : OutRule := { pct2 := 1, recMs := 0, inner := some c }
     let bad : OutRule := { pct2 := 3, recMs := 0, inner := some c }
     let ops := [OOp.loadRes "o" (some good), OOp.loadRes "o" (some bad)]
@@ -283,8 +322,8 @@ theorem outlier_invalid_keeps_old_witness :
 
 theorem out_statement_fails : ¬ out_enforced_eq_valid_latest_statement := by
   intro h
-  have := h [OOp.loadRes "o" (some { pct2 := 1, recMs := 0, inner := some { res := "o", strategy := 2, retryMs := 1000, minReq := 1, statMs := 1000, buckets := 0, maxRt := 0, th2 := 2, probe := 0 } }),
-             OOp.loadRes "o" (some { pct2 := 3, recMs := 0, inner := some { res := "o", strategy := 2, retryMs := 1000, minReq := 1, statMs := 1000, buckets := 0, maxRt := 0, th2 := 2, probe := 0 } })] "o"
+  have := h [OOp.loadRes "o" (some { pct2 := 1, recMs := 0, inner := some { id := "", res := "o", strategy := 2, retryMs := 1000, minReq := 1, statMs := 1000, buckets := 0, maxRt := 0, th2 := 2, probe := 0 } }),
+             OOp.loadRes "o" (some { pct2 := 3, recMs := 0, inner := some { id := "", res := "o", strategy := 2, retryMs := 1000, minReq := 1, statMs := 1000, buckets := 0, maxRt := 0, th2 := 2, probe := 0 } })] "o"
   revert this
   decide
 
